@@ -72,7 +72,7 @@ func init() {
 				tail := genTail(r, c)
 				c.Conns = []ConnCase{{Steps: []Step{{Msgs: []pgwire.FMsg{startupMsg(user, db)}}, {Msgs: append([]pgwire.FMsg{{K: "p", S1: "wrong" + r.Ident(2)}}, tail...)}}}}
 				c.Sched = &SchedCase{Strategy: r.Pick("uniform", "pct"), Depth: 1, MaxSteps: 200000, Closers: []Closer{{Calls: r.Range(1, 2)}},
-					Holds: []Hold{{Task: 2, Point: "closer.start", Until: 1, UntilPoint: "cb.validator"}, {Task: 1, Point: "cb.validator", Until: 2, UntilPoint: r.Pick("close.signalled", "close.signalled", "closer.returned")}}}
+					Holds: []Hold{{Task: 2, Point: "closer.start", Until: 1, UntilPoint: "cb.validator"}, {Task: 1, Point: "cb.validator.ret", Until: 2, UntilPoint: r.Pick("close.signalled", "close.signalled", "closer.returned")}}}
 				return c
 			}
 			if r.Chance(1, 30) {
